@@ -257,7 +257,10 @@ def canon_ctl(cd, out):
     V = _lib()[0]
     if not isinstance(cd, V.VmControlData):
         raise NotCanonical('cdata')
-    nargs, stack, save, cp = (getattr(cd, a, None) for a in ('nargs', 'stack', 'save', 'cp'))
+    try:
+        nargs, stack, save, cp = (getattr(cd, a) for a in ('nargs', 'stack', 'save', 'cp'))
+    except AttributeError as e:          # an absent Maybe field must be None, not a missing attribute
+        raise NotCanonical(str(e))
     f = lambda x: '-' if x is None else str(x)
     if save:
         from pytoniq_core.boc.hashmap import HashMap
